@@ -16,7 +16,7 @@ RULE = ("one op = one call of one combinator on values over D={0,1,2} with conti
         "single-operation batches cannot see: a different value category per argument, one object as both operands, "
         "continuations returning references, continuations that throw (table entry X), self-assignment / self-move / "
         "self-swap, containers of length 5..13, other container types. The whole public API of optional/, either/, variant/ "
-        "and monad/ is an operation (104 kinds); a generated line the model rejects or an operation kind no batch generates "
+        "and monad/ is an operation (125 kinds); a generated line the model rejects or an operation kind no batch generates "
         "is a violation. weight(all9 line)=19683. Non-trivial = a continuation was called or the result is not the empty optional.")
 ASSUMPTIONS = [
     "fcppt::optional::object<T> = Option T; either::object<F,S> = two-constructor sum; variant::object<Ts...> = (index, value of that type), or `none` for the valueless state, which is reached only through an assignment whose construction throws",
